@@ -234,6 +234,29 @@ def check(chk):
         body = " ".join(src(st) for st in loops[0].ast.body)
         chk.ob("DOM-15", "each stop method is called with its stored argument", "item[0](item[1])" in body.replace(" ", ""), f.where(loops[0].ast),
                construct=f.ident, text="stop method call form")
+    if loops:
+        from sa.helpers import inloop_guards
+        callnodes = [n for n in cfg.nodes if n.kind == "stmt" and any(y is st for st in loops[0].ast.body for y in [n.ast]) and any(True for _ in n.calls())]
+        ok = bool(callnodes) and all(not inloop_guards(cfg, n.id, loops[0].id) for n in callnodes) and \
+            not any(isinstance(y, (ast.Break, ast.Return, ast.Continue)) for y in ast.walk(loops[0].ast))
+        chk.ob("DOM-15", "every registered stop method runs - unconditionally, the loop is never left early", ok, f.where(loops[0].ast), construct=f.ident,
+               text="stop methods run unconditionally")
+    # what a start method hands back is its undo: every such result is recorded for _stopped
+    fs = m["start"]
+    scfg = fs.cfg()
+    rec = [(n, c) for n, c in scfg.calls_named("append") if src(c.func.value) == "self.stop_methods"]
+    chk.need(len(rec) == 1, "DOM-15", "Mode.start records the stop methods returned by the start methods", fs)
+    rn, rc = rec[0]
+    lh = [h for h in scfg.nodes if h.kind == "loop" and any(y is rc for y in ast.walk(h.ast))]
+    chk.need(lh, "DOM-15", "Mode.start runs the start methods in a loop", fs)
+    from sa.helpers import exact_selection
+    arg0 = src(rc.args[0]) if rc.args else "?"
+    exact_selection(chk, "DOM-15", "every non-empty result of a start method is recorded as a stop method (no further condition)", fs, scfg, rn, lh[-1],
+                    {(arg0, True)}, text="stop method recorded exactly")
+    d = [x for x in scfg.nodes if x.kind == "stmt" and isinstance(x.ast, ast.Assign) and src(x.ast.targets[0]) == arg0 and isinstance(x.ast.value, ast.Call)]
+    ok = len(d) == 1 and src(d[0].ast.value.func) == "%s.method" % src(lh[-1].ast.target) and src(lh[-1].ast.iter) == "self.machine.mode_controller.start_methods" \
+        and scfg.dominates(d[0].id, rn.id)
+    chk.ob("DOM-15", "the recorded value is what this iteration's start method returned", ok, fs.where(rc), construct=fs.ident, text="stop method source")
     RESETS = [("_stopped", "self.stop_methods"), ("_remove_mode_event_handlers", "self.event_handlers"),
               ("_remove_mode_switch_handlers", "self.switch_handlers"), ("_remove_mode_devices", "self.mode_devices"),
               ("_mode_stopped_callback", "self.stop_callbacks")]
@@ -619,6 +642,8 @@ def battery():
         M("twin: format-style event name", MD, "self.machine.events.post('mode_' + self.name + '_will_stop')", "self.machine.events.post('mode_{}_will_stop'.format(self.name))", None),
         M("twin: clear via loop var rename", MD, "        for key in self.event_handlers:\n            self.machine.events.remove_handler_by_key(key)", "        for key in list(self.event_handlers):\n            self.machine.events.remove_handler_by_key(key)", None),
         M("twin: guard with ==", ED, "        if self.enabled is False:\n            return", "        if self.enabled == False:\n            return", None),
+        M("some start methods' undo is not recorded", MD, "                if result:\n                    self.stop_methods.append(result)", "                if result and item.config_section:\n                    self.stop_methods.append(result)", "DOM-15"),
+        M("stop methods run only for the first", MD, "        for item in self.stop_methods:\n            item[0](item[1])", "        for item in self.stop_methods:\n            item[0](item[1])\n            break", "DOM-15"),
     ]
 
 
